@@ -387,6 +387,11 @@ type renderPanic struct{ v interface{} }
 
 func (p *renderPanic) Error() string { return fmt.Sprintf("PANIC: %v", p.v) }
 
+// renderEntry selects the public entry point render() goes through: 0 Render (cache on) / NewTemplate+Exec
+// (cache off), 1 BuffaloRenderer, 2 RenderR, 3 Parse+Exec. Set per case by the fault engine; C05 and C15 speak
+// about every way of rendering a template.
+var renderEntry int
+
 // render executes the program's main template with a fresh context.
 func (rt *Runtime) render() (out string, err error) {
 	defer func() {
@@ -395,6 +400,22 @@ func (rt *Runtime) render() (out string, err error) {
 		}
 	}()
 	herr := underSim(func() {
+		switch renderEntry {
+		case 1: // the entry point buffalo uses: data and helpers as two maps
+			out, err = plush.BuffaloRenderer(rt.Prog.Main, rt.plainData(), rt.helperData())
+			return
+		case 2: // template text from a reader
+			out, err = plush.RenderR(strings.NewReader(rt.Prog.Main), plush.NewContextWith(rt.contextData()))
+			return
+		case 3: // Parse (cache-aware) then Exec
+			var t *plush.Template
+			if t, err = plush.Parse(rt.Prog.Main); err != nil {
+				out = ""
+				return
+			}
+			out, err = t.Exec(plush.NewContextWith(rt.contextData()))
+			return
+		}
 		ctx := plush.NewContextWith(rt.contextData())
 		if plush.CacheEnabled {
 			out, err = plush.Render(rt.Prog.Main, ctx)
